@@ -161,6 +161,8 @@ struct ListenerState {
     backlog: VecDeque<usize>,
     waker: Option<Waker>,
     closed: bool,
+    /// injected failures of `accept` (a failing system call: ECONNABORTED, EMFILE …), returned before anything queued
+    accept_errors: VecDeque<io::ErrorKind>,
 }
 
 #[derive(Default, Clone, Debug)]
@@ -195,6 +197,8 @@ pub struct World {
     conns: Vec<Conn>,
     listeners: Vec<ListenerState>,
     effects: u64,
+    /// value of `effects` when the current poll began (livelock guard)
+    poll_effects_start: u64,
     progress: u64,
     pub steps: u64,
     pub limits: Limits,
@@ -262,6 +266,7 @@ impl World {
             conns: Vec::new(),
             listeners: Vec::new(),
             effects: 0,
+            poll_effects_start: 0,
             progress: 1,
             steps: 0,
             limits: Limits { max_steps: 200_000, max_time: 600 * SEC },
@@ -391,7 +396,7 @@ impl World {
             return Err(io::Error::new(io::ErrorKind::AddrInUse, "address in use (sim)"));
         }
         let id = self.listeners.len();
-        self.listeners.push(ListenerState { addr: addr.to_string(), backlog: VecDeque::new(), waker: None, closed: false });
+        self.listeners.push(ListenerState { addr: addr.to_string(), backlog: VecDeque::new(), waker: None, closed: false, accept_errors: VecDeque::new() });
         self.effects += 1;
         self.ev("bind", id as u64, 0);
         Ok(id)
@@ -411,8 +416,24 @@ impl World {
     pub fn listener_open(&self, addr: &str) -> bool {
         self.listeners.iter().any(|l| !l.closed && l.addr == addr)
     }
+    /// fault: the next `accept` on the listener bound to `addr` fails with `kind` (no queued connection is consumed)
+    pub fn inject_accept_error(&mut self, addr: &str, kind: io::ErrorKind) -> bool {
+        let Some(id) = self.listeners.iter().position(|l| !l.closed && l.addr == addr) else { return false };
+        self.listeners[id].accept_errors.push_back(kind);
+        if let Some(w) = self.listeners[id].waker.take() {
+            w.wake();
+        }
+        self.ev("accept.err.injected", id as u64, 0);
+        true
+    }
     pub fn poll_accept(&mut self, id: usize, cx: &mut Context<'_>) -> Poll<io::Result<usize>> {
         let now = self.now;
+        if let Some(kind) = self.listeners[id].accept_errors.pop_front() {
+            self.effects += 1;
+            self.count("fault.accept_error");
+            self.ev("accept.err", id as u64, 0);
+            return Poll::Ready(Err(io::Error::new(kind, "simulated accept failure")));
+        }
         let l = &mut self.listeners[id];
         if let Some(c) = l.backlog.pop_front() {
             self.conns[c].accepted = true;
@@ -883,6 +904,7 @@ fn poll_task(id: usize) {
         let was_spinner = t.spinner;
         t.state = TaskState::Parked;
         w.current_task = Some(id);
+        w.poll_effects_start = w.effects;
         let kind = t.kind;
         let mut h = w.sched_hash;
         fnv(&mut h, kind.as_bytes());
@@ -1040,6 +1062,9 @@ pub struct Endpoint {
     pub read_dir: usize,
     closed: bool,
 }
+/// I/O operations one poll of one task may perform before the simulator stops it
+pub const LIVELOCK_OPS: u64 = 50_000;
+
 impl Endpoint {
     pub fn server(conn: usize) -> Self {
         Endpoint { conn, read_dir: C2S, closed: false }
@@ -1052,7 +1077,15 @@ impl Endpoint {
     }
     pub fn poll_write(&mut self, cx: &mut Context<'_>, data: &[u8]) -> Poll<io::Result<usize>> {
         assert_eq!(self.read_dir, C2S, "only the server end writes through poll_write");
-        with(|w| w.poll_write_s2c(self.conn, cx, data))
+        let r = with(|w| w.poll_write_s2c(self.conn, cx, data));
+        // a task that keeps writing without ever returning to the executor cannot be preempted: stop it with a panic,
+        // which the executor records against the task (the checks report it as a livelock)
+        let ops = with(|w| w.effects.saturating_sub(w.poll_effects_start));
+        if ops > LIVELOCK_OPS {
+            with(|w| w.count("exec.livelock_stopped"));
+            panic!("simulator: livelock: a task performed {ops} I/O operations within one poll without yielding");
+        }
+        r
     }
     /// client end: put a segment on the wire
     pub fn send(&self, seg: Seg, delay: Ns) {
